@@ -91,10 +91,10 @@ Definition eat (t : ty) (l : list arg) : option (ids * list arg) :=
     | TNumStr, AStr _ => Some ([], r)
     | TBytes, ABytes _ => Some ([], r)
     | TNode, AInt z => Some ([(KNode, z)], r)
-    | TNodeNew, AInt z => if z =? -1 then Some ([], r) else Some ([(KNode, z)], r)
+    | TNodeNew, AInt z => Some ((if z =? -1 then [] else [(KNode, z)]), r)
     | TBuf, AInt z => Some ([(KBuf, z)], r)
     | TBus, AInt z => Some ([(KBus, z)], r)
-    | TBusM, AInt z => if z =? -1 then Some ([], r) else Some ([(KBus, z)], r)
+    | TBusM, AInt z => Some ((if z =? -1 then [] else [(KBus, z)]), r)
     | _, _ => None
     end
   end.
